@@ -72,7 +72,14 @@ namespace sim
       for (char c : s)
         if (!(std::isdigit(static_cast<unsigned char>(c)) || c == '+' || c == '-' || c == '.' || c == 'e' || c == 'E'))
           return false;
-      return true;
+      return std::isfinite(v); // a number that overflows a double is not a value the tools can work with
+    }
+
+    bool to_double_loose(const std::string &s, double &v)
+    {
+      char *end = nullptr;
+      v = std::strtod(s.c_str(), &end);
+      return end != s.c_str() && *end == '\0';
     }
 
     bool to_uint(const std::string &s, unsigned long &v)
@@ -399,6 +406,11 @@ namespace sim
           for (size_t k = 0; k < exp[i].size(); ++k)
             if (got[i][k] != exp[i][k])
               {
+                // the same number printed with other (not fewer than six) digits is still the library's value
+                double a = 0, b = 0;
+                if (k > dim && to_double_loose(got[i][k], a) && to_double_loose(exp[i][k], b)
+                    && (a == b || std::fabs(a - b) <= 1e-5 * std::max(std::fabs(a), std::fabs(b))))
+                  continue;
                 why = "row " + std::to_string(i) + " column '" + (k < hdr.size() ? hdr[k] : "?") + "' prints " + got[i][k] + " but the library's value is " + exp[i][k];
                 site = "column:" + std::string(k < hdr.size() ? hdr[k].substr(0, 2) : "?");
                 return false;
